@@ -162,6 +162,26 @@ def check_call_sites(a, b):
     return out
 
 
+def check_set(a, b):
+    """assignment path: <B instance>.set(<A instance>) with differently shaped A must raise"""
+    import pyteal as pt
+
+    try:
+        diff.reset_pyteal_state()
+        src = spec_of(pt, a).new_instance()
+        dst = spec_of(pt, b).new_instance()
+        dst.set(src)
+    except diff.pyteal_errors():
+        return []
+    except (TypeError, AttributeError, ValueError):
+        return []  # not an accepted argument form at all
+    except Exception as e:  # noqa
+        return [("set-crash:%s" % type(e).__name__, "%s.set(<%s instance>) raised %r" % (S.sdk_str(b), S.sdk_str(a), e))]
+    finally:
+        diff.reset_pyteal_state()
+    return [("set-accepts-different-layout", "%s.set(<%s instance>) was accepted although the layouts differ (%s vs %s): the bytes are copied unchanged" % (S.sdk_str(b), S.sdk_str(a), layout(b), layout(a)))]
+
+
 def run_case(case, col=None):
     a, b = case["a"], case["b"]
     out, res = judge_pair(a, b)
@@ -191,6 +211,8 @@ def run_case(case, col=None):
                 break
     if res is False and not compatible(a, b) and case.get("call_sites"):
         out += check_call_sites(a, b)
+    if not compatible(a, b) and a[0] not in ("txn", "ref") and b[0] not in ("txn", "ref", "tuple", "named"):
+        out += check_set(a, b)
     if col:
         col.cls("assignable" if res else "not-assignable")
         if res and a != b:
